@@ -491,7 +491,7 @@ def levels_on(grid, nat, lev):
     return [float(lev[int(np.argmin(np.abs(nat - x)))]) for x in grid]
 
 
-def calibrated_case(model, nat, rows, req, rng, label, *, nlayers, ref, temps, how, src=None, rayleigh_at=None):
+def calibrated_case(model, nat, rows, req, rng, label, *, nlayers, ref, temps, how, src=None, rayleigh_at=None, compo=''):
     """rows: [{'type': 'abs'|'table'|'cia', 'lev': level per native point (optical depth wanted in layer `ref`),
                'variant': own-grid variant, 'second': variant of a second molecule or None}] in evaluation order.
     Builds the model once with unit tables, measures what every contribution adds to layer `ref` with its own
@@ -542,7 +542,7 @@ def calibrated_case(model, nat, rows, req, rng, label, *, nlayers, ref, temps, h
     for c in comps:
         c.pop('lev', None)
     return dict(kind='sat', model=model, nat=nat, comps=comps, req=[float(x) for x in req], how=how, label=label,
-                ref=ref, src=src, **geo)
+                compo=compo, ref=ref, src=src, **geo)
 
 
 def vector_case(vec, rng, model):
@@ -577,9 +577,10 @@ def vector_case(vec, rng, model):
     if model == 'emission' and rng.random() < 0.5:
         temps = [float(t) for t in np.linspace(1600.0, 800.0, nlayers)]
     ray = rng.randrange(nc + 1) if rng.random() < 0.3 else None
-    label = 'sat:%s:%s:%dc:%s%s:%s' % (model, how, nc, ','.join(names), ',rayleigh' if ray is not None else '', sat_vec_class(vec, model))
+    label = 'sat:%s:%s:%dc:%s' % (model, how, nc, sat_vec_class(vec, model))
+    compo = ','.join(names) + (',rayleigh@%d' % ray if ray is not None else '')
     src = {f: vec[f] for f in ('inc', 'a', 'b', 'how', 'oc', 'nat', 'disc', 'emdisc', 'txdiff', 'emdiff')}
-    return calibrated_case(model, nat, rows, req, rng, label, nlayers=nlayers, ref=ref, temps=temps, how=how, src=src, rayleigh_at=ray)
+    return calibrated_case(model, nat, rows, req, rng, label, nlayers=nlayers, ref=ref, temps=temps, how=how, src=src, rayleigh_at=ray, compo=compo)
 
 
 def random_case(rng, model, quick):
@@ -629,8 +630,9 @@ def random_case(rng, model, quick):
     ref = rng.randrange(1, nlayers - 1)
     temps = [float(t) for t in np.linspace(1500.0, 700.0, nlayers)] if (model == 'emission' and rng.random() < 0.5) else None
     ray = rng.randrange(nc + 1) if rng.random() < 0.5 else None
-    label = 'satrand:%s:%s:%dc:%s%s' % (model, style, nc, ','.join(names), ',rayleigh' if ray is not None else '')
-    return calibrated_case(model, nat, rows, req, rng, label, nlayers=nlayers, ref=ref, temps=temps, how=style, rayleigh_at=ray)
+    label = 'satrand:%s:%s:%dc' % (model, style, nc)
+    compo = ','.join(names) + (',rayleigh@%d' % ray if ray is not None else '')
+    return calibrated_case(model, nat, rows, req, rng, label, nlayers=nlayers, ref=ref, temps=temps, how=style, rayleigh_at=ray, compo=compo)
 
 
 def _sc(x):
@@ -687,7 +689,8 @@ def run_sat_case(ctx, case, events):
 
     def worst(bad, *arrs):
         l, w = [int(z) for z in np.argwhere(bad)[0]]
-        return 'layer %d, wn %r: %s' % (l, float(gc[w] if bad.shape[1] == len(gc) else gf[w]), ', '.join('%s=%r' % (n, float(arr[l, w])) for n, arr in arrs))
+        return 'contributions in evaluation order [%s], layer %d, wn %r: %s' % (
+            case.get('compo', ''), l, float(gc[w] if bad.shape[1] == len(gc) else gf[w]), ', '.join('%s=%r' % (n, float(arr[l, w])) for n, arr in arrs))
     with np.errstate(invalid='ignore', divide='ignore', over='ignore'):
         if model == 'transmission':
             X = np.array(xs)                                   # contribution, layer, native point
@@ -791,9 +794,9 @@ def validate_sat_events(ctx, events, canary=True):
         c = '%s:%s' % (e['ev'], classes[e['id']])
         count[c] = count.get(c, 0) + 1
         w = why.get(e['id'], [])
-        ctx.verdict('trace_saturation_licensed', not w, cls='sattrace:%s:%s' % (c, case['label']),
-                    detail='TLC rejected %r in layer %d: computed range %d..%d of %d native points; %s'
-                           % (w, layer, e['a'], e['b'], e['nw'],
+        ctx.verdict('trace_saturation_licensed', not w, cls='sattrace:%s:%s' % (c, ':'.join(case['label'].split(':')[2:4])),
+                    detail='TLC rejected %r in layer %d of a model with contributions [%s]: computed range %d..%d of %d native points; %s'
+                           % (w, layer, case.get('compo', ''), e['a'], e['b'], e['nw'],
                               ('inc=%r tf=%r ts=%r' % (e['inc'], e['tf'], e['ts'])) if e['ev'] == 'tx' else
                               ('xl=%r xd=%r Ef=%r Es=%r' % (e['xl'], e['xd'], e['Ef'], e['Es'])))[:900],
                     vector=dict(kind='sat', case=case, layer=layer))
@@ -824,6 +827,8 @@ def validate_sat_events(ctx, events, canary=True):
     for evname in ('tx', 'em'):
         c = pick(evname)
         if c is None:
+            if any(e['ev'] == evname and e['id'] in why for e in evs):
+                continue                                       # TLC rejected real events of this kind: not vacuous
             raise Machinery('no accepted coupled %s event available for the canary' % evname)
         ok2, bad2, _ = validate_trace('Trace_Saturation', 'Trace_Saturation.cfg', [c])
         if ok2 or not bad2:
